@@ -444,10 +444,14 @@ def maxof(*args):
         elif isinstance(arg, RoAffine):
             if this_model is None:
                 this_model = arg.affine.model.top
+            elif arg.affine.model.top is not this_model:
+                raise ValueError('Models not match.')
         elif isinstance(arg, (DecRule, DecRuleSub)):
             arg = arg.to_affine()
             if this_model is None:
                 this_model = arg.model.top
+            elif arg.model.top is not this_model:
+                raise ValueError('Models not match.')
         elif isinstance(arg, Real):
             arg = np.array([arg])
         elif not isinstance(arg, np.ndarray):
